@@ -210,6 +210,14 @@ fn main() {
         let above = r["above"].as_str().unwrap_or("guard");
         let inner = unsafe { carve(pages.max(1), below, above, r["low_addr"].as_u64().unwrap_or(0) as usize) };
         fill_pattern(inner, pages.max(1) * PAGE);
+        // "ones_before_end": [k, ..]: eight 0xff bytes starting k bytes before the end of the inner pages (content that looks
+        // like the error return of a system call when read as a word)
+        for k in r["ones_before_end"].as_array().cloned().unwrap_or_default() {
+            let k = k.as_u64().unwrap_or(8) as usize;
+            if k >= 8 && k <= pages.max(1) * PAGE {
+                unsafe { std::ptr::write_bytes((inner + pages.max(1) * PAGE - k) as *mut u8, 0xff, 8) };
+            }
+        }
         // "image": the bytes of this file at the start of the (anonymous) mapping
         if let Some(b) = r["image"].as_str().and_then(|p| std::fs::read(p).ok()) {
             let n = b.len().min(pages.max(1) * PAGE);
@@ -360,6 +368,19 @@ fn thread_main(slot: usize, t: Value, regions: std::collections::HashMap<String,
     if let Some(n) = t.get("name_hex").and_then(|v| v.as_str()) {
         set_comm(&unhex(n));
     }
+    // "unshare_files": this thread gets a descriptor table of its own (as after clone without CLONE_FILES) and changes it
+    if t.get("unshare_files").and_then(|v| v.as_bool()).unwrap_or(false) {
+        unsafe {
+            if libc::unshare(libc::CLONE_FILES) == 0 {
+                let z = std::ffi::CString::new("/dev/zero").unwrap();
+                let a = libc::open(z.as_ptr(), libc::O_RDONLY);
+                let _b = libc::open(z.as_ptr(), libc::O_RDONLY);
+                if a >= 0 {
+                    libc::dup2(a, 0);
+                }
+            }
+        }
+    }
     let mode = t["mode"].as_str().unwrap_or("pause").to_string();
     let mut rep = json!({"slot": slot, "tid": tid, "mode": mode});
     if SHARED.load(Ordering::Relaxed) != 0 && slot < MAXSLOTS {
@@ -409,6 +430,8 @@ fn thread_main(slot: usize, t: Value, regions: std::collections::HashMap<String,
                     m
                 } else if let Some((_, _, m, ml)) = g("region_map_end") {
                     m + ml
+                } else if o.get("self_stack").is_some() {
+                    stack                       // an address inside this thread's own stack mapping
                 } else {
                     0
                 };
